@@ -21,6 +21,7 @@ import (
 	"os/exec"
 	"path/filepath"
 	"regexp"
+	"runtime"
 	"sort"
 	"strings"
 	"syscall"
@@ -490,6 +491,8 @@ func childMain(argv []string) int {
 		return 0
 	}
 	if job.Gate != "" {
+		// strace counts injected syscalls per thread: keep Execute (which is synchronous) on one OS thread
+		runtime.LockOSThread()
 		_ = os.WriteFile(job.Out+".ready", []byte(fmt.Sprint(os.Getpid())), 0o644)
 		for i := 0; i < 20000; i++ {
 			if _, err := os.Stat(job.Gate); err == nil {
@@ -614,6 +617,11 @@ func RunChild(job Job, scratch string, wrapper ...string) RunResult {
 			rr.ExitCode = -1
 		}
 	}
+	readOutputs(job, &rr)
+	return rr
+}
+
+func readOutputs(job Job, rr *RunResult) {
 	if data, e := os.ReadFile(job.Out + ".world.json"); e == nil {
 		var w World
 		if json.Unmarshal(data, &w) == nil {
@@ -637,7 +645,6 @@ func RunChild(job Job, scratch string, wrapper ...string) RunResult {
 			rr.Result = &r
 		}
 	}
-	return rr
 }
 
 // ---------- independent reference formatter (what WriteToFile composes, called directly) ----------
